@@ -597,6 +597,160 @@ fn probe_savepoint(rep: &mut Report) {
     }
 }
 
+/// lexicographic sortedness over several key columns (NULLs last in both directions)
+fn sorted_by_keys(rows: &[Vec<SqlValue>], keys: &[(usize, bool)]) -> bool {
+    let cmp1 = |a: &SqlValue, b: &SqlValue, desc: bool| -> std::cmp::Ordering {
+        use std::cmp::Ordering::*;
+        match (a, b) {
+            (SqlValue::Null, SqlValue::Null) => Equal,
+            (SqlValue::Null, _) => Greater,
+            (_, SqlValue::Null) => Less,
+            (SqlValue::Varchar(x), SqlValue::Varchar(y)) => if desc { y.as_bytes().cmp(x.as_bytes()) } else { x.as_bytes().cmp(y.as_bytes()) },
+            (SqlValue::Integer(x), SqlValue::Integer(y)) | (SqlValue::Bigint(x), SqlValue::Bigint(y)) => if desc { y.cmp(x) } else { x.cmp(y) },
+            _ => Equal,
+        }
+    };
+    rows.windows(2).all(|w| {
+        for (i, d) in keys {
+            let o = cmp1(&w[0][*i], &w[1][*i], *d);
+            if o != std::cmp::Ordering::Equal {
+                return o == std::cmp::Ordering::Less;
+            }
+        }
+        true
+    })
+}
+
+const S_POOL: &[&str] = &["abz", "abc", "aba", "ab", "abd", "b", "ba", "a", "abcz", "abca"];
+
+/// composite index (2–3 columns, NOT NULL / nullable mix with NULLs inside leading-key groups,
+/// prefix length on the string column, ASC/DESC per column) and ORDER BY on its leading columns:
+/// the index-driven sequence must be the sequence of the index-free twin (rows when the keys are
+/// unique, keys otherwise), sorted, and LIMIT/OFFSET must cut the same slice
+#[allow(clippy::too_many_arguments)]
+fn composite_order_case(rep: &mut Report, not_null: [bool; 3], rows: &[(Option<i64>, Option<String>, Option<i64>)], index_cols: &[(usize, bool, Option<u32>)], order: &[(usize, bool)], qualified: bool, where_sql: &str, los: &[(Option<usize>, Option<usize>)]) {
+    let names = ["a", "s", "c"];
+    let mut tw = Twin { plain: Db::new(), indexed: Db::new() };
+    tw.both(&format!(
+        "CREATE TABLE t (a INTEGER{}, s VARCHAR(10){}, c INTEGER{}, id INTEGER NOT NULL)",
+        if not_null[0] { " NOT NULL" } else { "" },
+        if not_null[1] { " NOT NULL" } else { "" },
+        if not_null[2] { " NOT NULL" } else { "" }
+    ));
+    // half of the rows before CREATE INDEX, half after (create_index vs add_to_indexes_for_insert)
+    let ins = |tw: &mut Twin, i: usize, r: &(Option<i64>, Option<String>, Option<i64>)| {
+        tw.both(&format!(
+            "INSERT INTO t VALUES ({}, {}, {}, {})",
+            r.0.map(|x| x.to_string()).unwrap_or("NULL".into()),
+            r.1.as_ref().map(|x| format!("'{}'", x)).unwrap_or("NULL".into()),
+            r.2.map(|x| x.to_string()).unwrap_or("NULL".into()),
+            i
+        ));
+    };
+    let half = rows.len() / 2;
+    for (i, r) in rows.iter().enumerate().take(half) {
+        ins(&mut tw, i, r);
+    }
+    let ddl = format!(
+        "CREATE INDEX ix ON t ({})",
+        index_cols.iter().map(|(c, d, pl)| format!("{}{}{}", names[*c], pl.map(|n| format!("({})", n)).unwrap_or_default(), if *d { " DESC" } else { " ASC" })).collect::<Vec<_>>().join(", ")
+    );
+    if !tw.indexed.exec(&ddl).is_ok() {
+        rep.count("composite_index_rejected");
+    }
+    for (i, r) in rows.iter().enumerate().skip(half) {
+        ins(&mut tw, i, r);
+    }
+    let order_sql = order.iter().map(|(c, d)| format!("{}{}{}", if qualified { "t." } else { "" }, names[*c], if *d { " DESC" } else { "" })).collect::<Vec<_>>().join(", ");
+    let keyseq = |r: &Vec<Vec<SqlValue>>| r.iter().map(|x| order.iter().map(|(c, _)| canon::val(&x[*c])).collect::<Vec<_>>().join(" ")).collect::<Vec<_>>();
+    let full_q = format!("SELECT a, s, c, id FROM t{} ORDER BY {}", where_sql, order_sql);
+    let full_plain = tw.plain.query(&full_q);
+    let unique = full_plain.rows().map(|r| { let k = keyseq(r); let mut d = k.clone(); d.sort(); d.dedup(); d.len() == k.len() }).unwrap_or(false);
+    let mut variants: Vec<(Option<usize>, Option<usize>)> = vec![(None, None)];
+    variants.extend(los.iter().cloned());
+    for l in variants {
+        let q = format!("{}{}{}", full_q, l.0.map(|n| format!(" LIMIT {}", n)).unwrap_or_default(), l.1.map(|m| format!(" OFFSET {}", m)).unwrap_or_default());
+        let (p, i) = (tw.plain.query(&q), tw.indexed.query(&q));
+        rep.count("composite_order_queries");
+        let case_id = format!("composite {:?} {}", tw.indexed.log, q);
+        match (p.rows(), i.rows()) {
+            (Some(pr), Some(ir)) => {
+                rep.case(&case_id, pr.len() >= 2);
+                let rowseq = |r: &Vec<Vec<SqlValue>>| r.iter().map(|x| canon::row(x)).collect::<Vec<_>>();
+                let keys_idx: Vec<(usize, bool)> = order.to_vec();
+                let bad = keyseq(pr) != keyseq(ir) || (unique && rowseq(pr) != rowseq(ir)) || !sorted_by_keys(ir, &keys_idx) || (l == (None, None) && bag(pr) != bag(ir));
+                if bad {
+                    rep.fail(
+                        FailKind::Oracle,
+                        None,
+                        &format!("composite index: ORDER BY sequence with the index differs from the index-free twin or is not sorted [{}]", ddl),
+                        &format!("{}\n-- query: {}\nwithout: {}\nwith:    {}", tw.indexed.log.join(";\n"), q, p.brief(), i.brief()),
+                    );
+                }
+            }
+            (None, None) => rep.case(&case_id, false),
+            _ => {
+                rep.case(&case_id, true);
+                rep.fail(FailKind::Oracle, None, &format!("composite index: query succeeds on one twin only [{}]", ddl), &format!("{}\n-- query: {}\nwithout: {}\nwith:    {}", tw.indexed.log.join(";\n"), q, p.brief(), i.brief()));
+            }
+        }
+    }
+}
+
+fn gen_composite(rep: &mut Report, rng: &mut Rng) {
+    let not_null = [rng.chance(1, 2), rng.chance(1, 2), rng.chance(1, 2)];
+    let n = *rng.pick(&[3usize, 6, 10, 14]);
+    let unique = rng.chance(1, 2);
+    let mut cols = vec![0usize, 1, 2];
+    rng.shuffle(&mut cols);
+    cols.truncate(if rng.chance(1, 2) { 2 } else { 3 });
+    let all_desc = rng.chance(1, 3);
+    let all_asc = !all_desc && rng.chance(1, 2);
+    let index_cols: Vec<(usize, bool, Option<u32>)> =
+        cols.iter().map(|c| (*c, if all_desc { true } else if all_asc { false } else { rng.chance(1, 2) }, if *c == 1 && rng.chance(1, 2) { Some(rng.range(1, 3) as u32) } else { None })).collect();
+    let k = rng.range(1, index_cols.len() as i64) as usize;
+    let mode = rng.below(4);
+    let order: Vec<(usize, bool)> = index_cols[..k].iter().map(|(c, d, _)| (*c, match mode { 0 | 1 => *d, 2 => !*d, _ => rng.chance(1, 2) })).collect();
+    let mut rows: Vec<(Option<i64>, Option<String>, Option<i64>)> = vec![];
+    let mut seen: Vec<String> = vec![];
+    for _ in 0..n * 3 {
+        if rows.len() >= n {
+            break;
+        }
+        let a = if !not_null[0] && rng.chance(1, 4) { None } else { Some(rng.range(1, 3)) };
+        let sv = if !not_null[1] && rng.chance(1, 4) { None } else { Some((*rng.pick(S_POOL)).to_string()) };
+        let c = if !not_null[2] && rng.chance(1, 4) { None } else { Some(rng.range(0, 3)) };
+        let key: String = order.iter().map(|(col, _)| match col { 0 => format!("{:?}", a), 1 => format!("{:?}", sv), _ => format!("{:?}", c) }).collect::<Vec<_>>().join("|");
+        if unique && seen.contains(&key) {
+            continue;
+        }
+        seen.push(key);
+        rows.push((a, sv, c));
+    }
+    let where_sql = if rng.chance(1, 3) { format!(" WHERE {} >= {}", ["a", "c"][rng.below(2) as usize], rng.range(0, 2)) } else { String::new() };
+    let los = [(Some(3), Some(1)), (Some(rng.range(0, 4) as usize), Some(rng.range(0, 5) as usize)), (None, Some(rng.range(0, 4) as usize))];
+    let qualified = rng.chance(1, 5);
+    composite_order_case(rep, not_null, &rows, &index_cols, &order, qualified, &where_sql, &los);
+}
+
+fn probe_composite(rep: &mut Report) {
+    let s = |x: &str| Some(x.to_string());
+    let los = [(Some(3), Some(1)), (Some(2), Some(0)), (None, Some(2)), (Some(10), Some(5))];
+    let rows1 = vec![(Some(2), s("x"), None), (Some(1), s("x"), Some(2)), (Some(1), s("y"), None), (Some(2), s("y"), Some(1)), (Some(1), s("z"), Some(1)), (Some(2), s("z"), None), (Some(1), s("w"), None)];
+    composite_order_case(rep, [true, true, false], &rows1, &[(0, false, None), (2, false, None)], &[(0, false), (2, false)], false, "", &los);
+    composite_order_case(rep, [true, true, false], &rows1, &[(0, true, None), (2, true, None)], &[(0, true), (2, true)], false, "", &los);
+    composite_order_case(rep, [true, true, false], &rows1, &[(0, false, None), (2, false, None)], &[(0, false), (2, false)], false, " WHERE a >= 1", &los);
+    let rows2 = vec![(Some(1), s("abz"), Some(0)), (Some(1), s("abc"), Some(1)), (Some(2), s("abd"), Some(2)), (Some(1), s("aba"), Some(3)), (Some(2), s("aba"), Some(4)), (Some(1), s("ab"), Some(5)), (Some(2), s("abcz"), Some(6)), (Some(2), s("abca"), Some(7))];
+    for pl in [1u32, 2, 3] {
+        composite_order_case(rep, [true, true, true], &rows2, &[(0, false, None), (1, false, Some(pl))], &[(0, false), (1, false)], false, "", &los);
+        composite_order_case(rep, [true, true, true], &rows2, &[(0, true, None), (1, true, Some(pl))], &[(0, true), (1, true)], false, "", &los);
+        composite_order_case(rep, [true, true, true], &rows2, &[(1, false, Some(pl)), (0, false, None)], &[(1, false), (0, false)], false, "", &los);
+    }
+    composite_order_case(rep, [true, true, true], &rows2, &[(0, false, None), (1, false, Some(2)), (2, false, None)], &[(0, false), (1, false), (2, false)], false, "", &los);
+    composite_order_case(rep, [true, true, true], &rows2, &[(0, false, None), (1, false, None)], &[(0, false), (1, false)], true, "", &los);
+    composite_order_case(rep, [true, true, true], &rows2, &[(0, false, None), (1, true, None)], &[(0, false), (1, true)], false, "", &los);
+}
+
 /// deterministic: unsorted IN lists with duplicates while the same single-column index serves ORDER BY
 fn probe_in_list_order(rep: &mut Report) {
     for (decl, idx, dir) in [("a INTEGER NOT NULL", "CREATE INDEX ia ON t (a)", ""), ("a INTEGER", "CREATE INDEX ia ON t (a DESC)", " DESC")] {
@@ -867,6 +1021,7 @@ fn main() {
     probe_in_list_order(&mut rep);
     probe_bound_shapes(&mut model, &mut rep);
     probe_savepoint(&mut rep);
+    probe_composite(&mut rep);
     let nt = args.n(500, 6000);
     for i in 0..nt {
         let mut r = rng.fork();
@@ -877,6 +1032,9 @@ fn main() {
             _ => r.range(2, 14) as usize,
         };
         twin_case(&mut rep, &mut r, n, 8);
+        if i % 2 == 0 {
+            gen_composite(&mut rep, &mut r);
+        }
     }
     std::process::exit(rep.finish());
 }
